@@ -13,7 +13,10 @@ use uuid::Uuid;
 
 use crate::{ToolInvocation, ToolOutput};
 
-use super::{default_shell_program, parse_args, resolve_path, truncate_utf8, BuiltinToolConfig};
+use super::{
+    default_shell_program, incomplete_utf8_tail, parse_args, resolve_path, truncate_utf8,
+    BuiltinToolConfig,
+};
 
 #[derive(Deserialize)]
 struct ShellArgs {
@@ -270,6 +273,11 @@ async fn capture_stream<R: AsyncRead + Unpin>(
     }
 
     let truncated_preview = bytes_total as usize > max_preview_bytes;
+    if truncated_preview {
+        // the limit may fall inside a character: the preview ends with the last complete one
+        let tail = incomplete_utf8_tail(&preview);
+        preview.truncate(preview.len() - tail);
+    }
 
     let (preview_text, _utf8_truncated, used_bytes) = truncate_utf8(&preview, max_preview_bytes);
     let preview_lines = preview_text
